@@ -164,6 +164,21 @@ func (ex *Exec) stepCall(st *State, b *ssa.BasicBlock, i int, in *ssa.Call) bool
 
 func (ex *Exec) inline(st *State, callee *ssa.Function, args []*Val, bindings []*Val, rk retKind, b *ssa.BasicBlock, i int, in ssa.Instruction) {
 	fr := st.frame
+	if callee.Blocks == nil || !ex.ld.inModule(callee) {
+		if v := ex.autoPure(st, callee, args); v != nil {
+			// a pure, total standard-library function over basic values without a contract: its result is an
+			// uninterpreted function of its arguments (so that a harmless rewrite that uses, say,
+			// strings.EqualFold is not stopped; nothing is known about the result)
+			switch rk {
+			case retResume:
+				if val, ok := in.(ssa.Value); ok {
+					fr.vals[val] = v
+				}
+				ex.runFrom(st, b, i+1)
+				return
+			}
+		}
+	}
 	if callee.Blocks == nil {
 		ex.fail("call of %s: external function without an extern contract (uncontracted external effect)", callee.String())
 	}
@@ -366,6 +381,47 @@ func (ex *Exec) applyContract(st *State, c *Contract, args []*Val, sig *types.Si
 			Desc: "the assumed contract of " + calleeShort + " is consistent with the state at this call", Trace: append([]string(nil), st.trace...), Inst: ex.oblCount[name]})
 	}
 	return res
+}
+
+// autoPure models calls of side-effect-free, panic-free standard-library functions over basic values.
+var autoPurePkgs = map[string]bool{"strings": true, "strconv": true, "unicode": true, "unicode/utf8": true, "path": true, "math": true, "math/bits": true}
+var autoPureDeny = map[string]bool{"strings.Repeat": true, "strings.NewReplacer": true, "strconv.Quote": false}
+
+func (ex *Exec) autoPure(st *State, callee *ssa.Function, args []*Val) *Val {
+	if callee.Pkg == nil || callee.Signature.Recv() != nil || !autoPurePkgs[callee.Pkg.Pkg.Path()] {
+		return nil
+	}
+	full := callee.Pkg.Pkg.Path() + "." + callee.Name()
+	if autoPureDeny[full] {
+		return nil
+	}
+	basic := func(t types.Type) bool {
+		b, ok := t.Underlying().(*types.Basic)
+		return ok && (b.Info()&(types.IsInteger|types.IsBoolean|types.IsString)) != 0
+	}
+	sig := callee.Signature
+	if sig.Results().Len() != 1 || !basic(sig.Results().At(0).Type()) || sig.Variadic() {
+		return nil
+	}
+	var sorts []Sort
+	var ts []string
+	for k := 0; k < sig.Params().Len(); k++ {
+		if !basic(sig.Params().At(k).Type()) || k >= len(args) {
+			return nil
+		}
+		sorts = append(sorts, args[k].T.Sort)
+		ts = append(ts, args[k].T.S)
+	}
+	rt := sig.Results().At(0).Type()
+	f := ex.uninterp("auto:"+full, sorts, sortOfType(rt))
+	ex.noteAssumed("standard-library function modelled as an uninterpreted pure function (no contract): " + full)
+	t := Term{f, sortOfType(rt)}
+	if len(ts) > 0 {
+		t = Term{fmt.Sprintf("(%s %s)", f, strings.Join(ts, " ")), sortOfType(rt)}
+	}
+	v := scalar(t, rt)
+	st.assume(ex.wfValue(st, rt, v.T))
+	return v
 }
 
 func (ex *Exec) checkClosureArgs(st *State, c *Contract, names []string, args []*Val, vars map[string]*Val, pre *snapshot, preNext Term, pkg *types.Package, calleeShort, site string, pos token.Pos) {
